@@ -1781,6 +1781,15 @@ def b_dict_fromkeys(interp, args, kwargs):
     return d
 
 
+def b_sum(interp, args, kwargs):
+    if not args or isinstance(args[0], T):
+        return NotImplemented
+    acc = args[1] if len(args) > 1 else kwargs.get('start', K(0))
+    for x in interp.iterate(args[0]):
+        acc = binop(interp, ast.Add(), acc, x)
+    return acc
+
+
 def b_closing(interp, args, kwargs):
     """contextlib.closing(thing): enters as thing, leaves by thing.close()."""
     if len(args) != 1:
@@ -1879,7 +1888,7 @@ BUILTINS = {
     'operator.lt': b_operator('lt'), 'operator.le': b_operator('le'),
     'operator.eq': b_operator('eq'), 'operator.ne': b_operator('ne'),
     'operator.gt': b_operator('gt'), 'operator.ge': b_operator('ge'),
-    'contextlib.closing': b_closing, 'object': b_object,
+    'contextlib.closing': b_closing, 'object': b_object, 'sum': b_sum,
     'operator.contains': b_operator_contains,
     'operator.not_': b_operator_not, 'operator.is_': b_operator_is(False),
     'operator.is_not': b_operator_is(True),
